@@ -2,6 +2,7 @@ package main
 
 import (
 	"fmt"
+	"regexp"
 	"go/ast"
 	"sort"
 	"go/token"
@@ -292,9 +293,11 @@ func (ft *funcTrans) assumeInvariants(li *loopInfo) {
 	}
 	env := ft.loopEnv(li, func(phi *ssa.Phi) Term { return ft.vals[phi].T })
 	ec := &evalCtx{w: w, pkg: ft.pkgTypes(), env: env, st: li.hdrState, old: ft.entry, lets: ft.lets()}
-	for _, inv := range li.lc.Invariants {
+	for k, inv := range li.lc.Invariants {
 		t := ec.evalBool(inv.E)
+		w.curTag = fmt.Sprintf("inv:%d:%d", li.ordinal, k+1)
 		ft.assume(t.S)
+		w.curTag = ""
 	}
 	if li.lc.Decreases != nil {
 		t := ec.eval(li.lc.Decreases.E)
@@ -330,7 +333,9 @@ func (ft *funcTrans) backEdge(from *ssa.BasicBlock, li *loopInfo, edgeCond strin
 	ft.reach[ft.cur] = edgeCond
 	for k, inv := range li.lc.Invariants {
 		t := ec.evalBool(inv.E)
-		ft.obligation("invariant", fmt.Sprintf("loop%d.inv%d.preserved@b%d", li.ordinal, k+1, from.Index), inv.Src, t.S)
+		o := ft.obligation("invariant", fmt.Sprintf("loop%d.inv%d.preserved@b%d", li.ordinal, k+1, from.Index), inv.Src, t.S)
+		o.Focus = fmt.Sprintf("inv:%d:%d", li.ordinal, k+1)
+		o.FocusSet = relatedInvariants(li, k)
 	}
 	if li.lc.Decreases != nil {
 		t := ec.concrete(ec.eval(li.lc.Decreases.E))
@@ -537,4 +542,31 @@ func (ft *funcTrans) loopFrameHeaps(li *loopInfo, st *State) []string {
 		}
 	}
 	return sortedKeys(m)
+}
+
+var idxPatRe = regexp.MustCompile(`[A-Za-z_][A-Za-z0-9_.]*\[[a-z][A-Za-z0-9]*\]`)
+
+// relatedInvariants: tags of the invariants of li kept when proving
+// preservation of invariant k in the focused (small-context) query variant:
+// k itself, unquantified invariants, and quantified invariants that talk
+// about the same indexed collection (textually, e.g. "o.Ways[k]").
+func relatedInvariants(li *loopInfo, k int) map[string]bool {
+	set := map[string]bool{}
+	mine := map[string]bool{}
+	for _, m := range idxPatRe.FindAllString(li.lc.Invariants[k].Src, -1) {
+		mine[m] = true
+	}
+	for j, inv := range li.lc.Invariants {
+		tag := fmt.Sprintf("inv:%d:%d", li.ordinal, j+1)
+		if j == k || !strings.Contains(inv.Src, "forall") {
+			set[tag] = true
+			continue
+		}
+		for _, m := range idxPatRe.FindAllString(inv.Src, -1) {
+			if mine[m] {
+				set[tag] = true
+			}
+		}
+	}
+	return set
 }
